@@ -44,7 +44,9 @@ JudgeRes(ev, j) ==
         why == VerifyWhy(inp, env)
     IN
     /\ (why = "" \/ Report("C01", "vm_reject", ev, j, why))
-    /\ (inp.kind \in {"trkey", "trscript"} \/ Report("C01", "not_a_taproot_spend", ev, j, inp.kind))
+    /\ ((IF ev.kind = "tr" THEN inp.kind \in {"trkey", "trscript"} ELSE inp.kind = ev.kind)
+        \/ Report("C01", "spend_of_another_output_type", ev, j, inp.kind))
+    /\ (ev.kind = "tr" \/ keypath \/ Report("C01", "key_spend_without_signature", ev, j, ""))
     /\ (inp.kind # "trkey" \/ keypath \/ Report("C01", "key_path_spend_without_internal_key_signature", ev, j, ""))
     /\ (inp.kind # "trscript" \/ (\E q \in 1..n : Encode(ev.leaves[q], "tap") = inp.script)
         \/ Report("C01", "executed_script_is_not_a_leaf", ev, j, ""))
@@ -52,13 +54,31 @@ JudgeRes(ev, j) ==
         /\ (ev.st.max_weight < 0 \/ r.real_weight <= ev.st.max_weight
             \/ Report("C09", "max_weight", ev, j, <<r.real_weight, ev.st.max_weight>>))
         /\ ("plan" \notin DOMAIN r \/
-            /\ (r.plan.wit_size >= r.real_wit_bytes + 1 \/ Report("C09", "plan_wit_size", ev, j, <<r.real_wit_bytes + 1, r.plan.wit_size>>))
+            /\ (inp.rules \notin {"segwitv0", "tap"} \/ r.plan.wit_size >= r.real_wit_bytes + 1 \/ Report("C09", "plan_wit_size", ev, j, <<r.real_wit_bytes + 1, r.plan.wit_size>>))
             /\ (r.plan.ssig_size >= r.real_ssig_bytes + 1 \/ Report("C09", "plan_ssig_size", ev, j, <<r.real_ssig_bytes + 1, r.plan.ssig_size>>))))
   ELSE \* "none"
     IF r.mode = "mall"
     THEN ((~keypath /\ \A q \in 1..n : SatSet(ev.leaves[q], w, "tap") = {}) \/ Report("C02", "missed_mall", ev, j, r.route))
     ELSE ((~keypath /\ \A q \in 1..n : ~(ev.st.sane[q] /\ HashesIn(ev.leaves[q]) \subseteq w.pre /\ SatSet(ev.leaves[q], w, "tap") # {}))
           \/ Report("C02", "missed_nonmall", ev, j, r.route))
+
+\* C13 on key-type and taproot outputs: the interpreter on the library's own satisfaction and on
+\* mutations of it.  Accepts => the real scripts accept (judged in a version-2 transaction: the
+\* interpreter is not told the version); it accepts what the library built for sane descriptors.
+JudgeInterp(ev, j) ==
+  LET r == ev.res[j]
+      w == World(r.w)
+      sane == \A q \in 1..Len(ev.st.sane) : ev.st.sane[q]
+  IN
+  "interp" \notin DOMAIN r \/
+  \A q \in 1..Len(r.interp) :
+    LET x == r.interp[q]
+        env == [EnvOf(w, x.inp.rules, FALSE) EXCEPT !.ver = 2]
+        why == VerifyWhy(x.inp, env)
+    IN
+    /\ (x.res.stage # "PANIC" \/ Report("C11", "interpreter_panic", ev, j, x.mut))
+    /\ (~x.res.ok \/ why = "" \/ Report("C13", "accepts_invalid_spend", ev, j, <<x.mut, why>>))
+    /\ (x.mut # "id" \/ ~sane \/ r.mode # "nonmall" \/ x.res.ok \/ Report("C13", "rejects_library_satisfaction", ev, j, x.res.err))
 
 \* C07 on the descriptor: when the library lifts it, the policy is true in exactly the worlds in
 \* which the output can be spent (key path or some leaf); refusing to lift is always allowed
@@ -73,7 +93,7 @@ JudgeLift(ev) ==
 JudgeEvent(ev) ==
   IF ev.parse # "ok"
   THEN Report("INFO", "parse_" \o ev.parse, ev, 0, ev.msg)
-  ELSE /\ \A j \in 1..Len(ev.res) : JudgeRes(ev, j)
+  ELSE /\ \A j \in 1..Len(ev.res) : JudgeRes(ev, j) /\ JudgeInterp(ev, j)
        /\ JudgeLift(ev)
 
 Inv == i > 0 => JudgeEvent(Rec[i])
